@@ -104,7 +104,7 @@ def shrink(block, prop, max_rounds=200):
         reduced = False
         for i in range(0, len(ops), chunk):
             cand = ops[:i] + ops[i + chunk:]
-            if cand and "stale" not in " ".join(cand) and fails(cand):
+            if cand and fails(cand):
                 ops = cand
                 n = max(n - 1, 2)
                 reduced = True
